@@ -349,7 +349,16 @@ func main() {
 
 	// ---- 3. outside the hypotheses (duplicate topics in a member's list, equal member ids): the property
 	// does not quantify over these; they only check that the model still follows the code (oracle: holds=1)
-	for k := 0; k < 60; k++ {
+	{ // the two witnesses of Props/C14.lean §5
+		ms := []member{{"m1", 0, []int{0, 0}}, {"m2", 0, []int{0}}}
+		var ps []part
+		for i := 0; i < 6; i++ {
+			ps = append(ps, part{0, i, 0})
+		}
+		run("range", ms, ps, 1)
+		run("rack", []member{{"m7", 0, []int{0, 0}}}, []part{{0, 0, 1}, {0, 1, 1}}, rackRepeat)
+	}
+	for k := 0; k < 300; k++ {
 		n := 2 + r.Intn(3)
 		ids := pickIDs(n, k)
 		ms := make([]member, n)
@@ -361,8 +370,13 @@ func main() {
 		} else {
 			ms[1].id = ms[0].id
 		}
-		ps := mkParts(r, []int{r.Intn(6), r.Intn(6)}, 1)
+		racks := 1 + r.Intn(3)
+		for i := range ms {
+			ms[i].zone = r.Intn(racks)
+		}
+		ps := mkParts(r, []int{r.Intn(8), r.Intn(8)}, racks)
 		run("range", ms, ps, 1)
 		run("rr", ms, ps, 1)
+		run("rack", ms, ps, rackRepeat)
 	}
 }
